@@ -138,11 +138,13 @@ structure MolRec where
   order : Order
   stereoAtoms : List (Nat × Bool)
   stereoBonds : SBonds
+  starts : List Nat := []
   mapping : List Nat := []
   deriving Repr, Inhabited
 
 def MolRec.ofState (st : PState) : MolRec :=
-  { atoms := st.atoms, bonds := st.bonds, order := st.order, stereoAtoms := st.stereoAtoms, stereoBonds := st.stereoBonds }
+  { atoms := st.atoms, bonds := st.bonds, order := st.order, stereoAtoms := st.stereoAtoms, stereoBonds := st.stereoBonds,
+    starts := st.starts }
 
 /-- `parser(smiles_tokenize(x), not ignore)` with `ignore=True` -/
 def readMol (s : Str) : Except Err MolRec :=
@@ -189,17 +191,28 @@ def adjAdd : List (Nat × List (Nat × Nat)) → Nat → Nat → Nat → List (N
   | [], _, _, _ => []
   | (a, l) :: tl, n, m, b => if a == n then (a, l ++ [(m, b)]) :: tl else (a, l) :: adjAdd tl n m b
 
+def isoBad (iso : Option Nat) (isos : List Nat) : Bool :=
+  match iso with
+  | some i => !isos.contains i
+  | none => false
+
+/-- `Element.from_symbol(sym)(isotope, charge=…)`: the atomic number or the ValueError -/
+def atomCheck (a : AtomTok) : Except Err Nat :=
+  match lookupStr a.element elements with
+  | none => .error (valueErr "Element with symbol not found")
+  | some (z, isos) =>
+    if isoBad a.isotope isos then .error (valueErr "isotope number impossible or not stable")
+    else if a.charge > 4 || a.charge < -4 then .error (valueErr "formal charge should be in range [-4, 4]")
+    else .ok z
+
 def buildAtoms : List Nat → List AtomTok → Except Err (List (Nat × Nat × Option Nat × Int × Bool × Option Nat))
   | n :: ns, a :: as =>
-    match lookupStr a.element elements with
-    | none => .error (valueErr "Element with symbol not found")
-    | some (z, isos) =>
-      if (match a.isotope with | some i => !isos.contains i | none => false) then
-        .error (valueErr "isotope number impossible or not stable")
-      else if a.charge > 4 || a.charge < -4 then .error (valueErr "formal charge should be in range [-4, 4]")
-      else match buildAtoms ns as with
-        | .error e => .error e
-        | .ok tl => .ok ((n, z, a.isotope, a.charge, a.radical, a.hyd) :: tl)
+    match atomCheck a with
+    | .error e => .error e
+    | .ok z =>
+      match buildAtoms ns as with
+      | .error e => .error e
+      | .ok tl => .ok ((n, z, a.isotope, a.charge, a.radical, a.hyd) :: tl)
   | _, _ => .ok []
 
 def buildBonds (mapping : List Nat) : List (Nat × Nat × Nat) → List (Nat × List (Nat × Nat)) →
@@ -405,59 +418,66 @@ def applyRadicalsRxn (ms : List MolRec) : List Nat → Except Err (List MolRec)
       | none => .error (.crash "KeyError")
       | some ms' => applyRadicalsRxn ms' tl
 
-/-- `smiles(data)` with default keyword arguments, for a non-empty `str` -/
+/-- the molecule branch of `smiles()` -/
+def smilesMol (smi : Str) (radicals : List Nat) : Except Err Result :=
+  match readMol smi with
+  | .error e => .error e
+  | .ok r =>
+    match applyRadicalsMol r.atoms radicals with
+    | .error e => .error e
+    | .ok atoms =>
+      match mapMolecule { r with atoms := atoms } with
+      | .error e => .error e
+      | .ok r' => match buildMol r' with
+        | .error e => .error e
+        | .ok m => .ok (.mol r' m)
+
+/-- parse, flag radicals, number and build the three molecule lists of a reaction -/
+def finishRxn (R G P : List Str) (radicals : List Nat) : Except Err Result :=
+  match readMols R with
+  | .error e => .error e
+  | .ok rr => match readMols P with
+    | .error e => .error e
+    | .ok pp => match readMols G with
+      | .error e => .error e
+      | .ok gg =>
+        -- radicals are numbered over chain(reactants, reagents, products)
+        match applyRadicalsRxn (rr ++ gg ++ pp) radicals with
+        | .error e => .error e
+        | .ok all =>
+          let rr' := all.take rr.length
+          let gg' := (all.drop rr.length).take gg.length
+          let pp' := all.drop (rr.length + gg.length)
+          let rec0 := mapReaction { reactants := rr', reagents := gg', products := pp' }
+          match buildRoles rec0 with
+          | .error e => .error e
+          | .ok (kept, out) =>
+            if out.reactants.isEmpty && out.products.isEmpty && out.reagents.isEmpty then
+              .error (valueErr "At least one graph object required")
+            else .ok (.rxn rec0 kept out)
+
+/-- the reaction branch of `smiles()` -/
+def smilesRxn (smi : Str) (radicals : List Nat) (contract : Option (List (List Nat))) : Except Err Result :=
+  match splitOn 62 smi with
+  | [a, b, c] =>
+    let R := nonEmptyParts a
+    let P := nonEmptyParts c
+    let G := nonEmptyParts b
+    match contract with
+    | some ct =>
+      match applyContract R G P ct with
+      | .error e => .error e
+      | .ok (R', G', P') => finishRxn R' G' P' radicals
+    | none => finishRxn R G P radicals
+  | _ => .error (valueErr "invalid reaction smiles")
+
+/-- `smiles(data)` with default keyword arguments, for a `str` -/
 def smiles (data : Str) : Except Err Result :=
   if data.isEmpty then .error (valueErr "Empty string")
   else match splitWs data with
   | [] => .error (valueErr "not enough values to unpack")
   | smi :: rest =>
-    let (radicals, contract) := parseCx rest
-    if smi.contains 62 then
-      match splitOn 62 smi with
-      | [a, b, c] =>
-        let R := nonEmptyParts a
-        let P := nonEmptyParts c
-        let G := nonEmptyParts b
-        let contracted : Except Err (List Str × List Str × List Str) :=
-          match contract with
-          | some ct => applyContract R G P ct
-          | none => .ok (R, G, P)
-        match contracted with
-        | .error e => .error e
-        | .ok (R', G', P') =>
-          match readMols R' with
-          | .error e => .error e
-          | .ok rr => match readMols P' with
-            | .error e => .error e
-            | .ok pp => match readMols G' with
-              | .error e => .error e
-              | .ok gg =>
-                -- radicals are numbered over chain(reactants, reagents, products)
-                match applyRadicalsRxn (rr ++ gg ++ pp) radicals with
-                | .error e => .error e
-                | .ok all =>
-                  let rr' := all.take rr.length
-                  let gg' := (all.drop rr.length).take gg.length
-                  let pp' := all.drop (rr.length + gg.length)
-                  let rec0 := mapReaction { reactants := rr', reagents := gg', products := pp' }
-                  match buildRoles rec0 with
-                  | .error e => .error e
-                  | .ok (kept, out) =>
-                    if out.reactants.isEmpty && out.products.isEmpty && out.reagents.isEmpty then
-                      .error (valueErr "At least one graph object required")
-                    else .ok (.rxn rec0 kept out)
-      | _ => .error (valueErr "invalid reaction smiles")
-    else
-      match readMol smi with
-      | .error e => .error e
-      | .ok r =>
-        match applyRadicalsMol r.atoms radicals with
-        | .error e => .error e
-        | .ok atoms =>
-          match mapMolecule { r with atoms := atoms } with
-          | .error e => .error e
-          | .ok r' => match buildMol r' with
-            | .error e => .error e
-            | .ok m => .ok (.mol r' m)
+    let cx := parseCx rest
+    if smi.contains 62 then smilesRxn smi cx.1 cx.2 else smilesMol smi cx.1
 
 end ChythonModel.Model.C03
